@@ -113,8 +113,9 @@ func (p *Packet) decodeHead(data []byte) error {
 	if p.DataType != DataTypePenetrate {
 		end += 8
 	}
-	if p.DataType == DataTypeI || p.DataType == DataTypeP || p.DataType == DataTypeB {
-		p.customAttributes.videoFrame = true
+	// 每次解析都重新判断 同一个Packet重复使用时不能保留上一个包的结果
+	p.customAttributes.videoFrame = p.DataType == DataTypeI || p.DataType == DataTypeP || p.DataType == DataTypeB
+	if p.customAttributes.videoFrame {
 		end += 4
 	}
 
@@ -122,6 +123,8 @@ func (p *Packet) decodeHead(data []byte) error {
 		return ErrHeaderLength2Short
 	}
 	start := 16
+	// 没有这些字段的数据类型 清掉上一个包留下的值
+	p.Timestamp, p.LastIFrameInterval, p.LastFrameInterval = 0, 0, 0
 	if p.DataType != DataTypePenetrate {
 		p.Timestamp = binary.BigEndian.Uint64(data[16:24])
 		start = 24
